@@ -324,3 +324,40 @@ where
         self.end - self.i
     }
 }
+
+/// Verification hooks (compiled only with `--cfg qwt_verif`): make the order in which the
+/// Huffman builders enumerate symbols of equal code length a function of a seed, and
+/// record the `(symbol, length)` list the last code construction worked on.
+#[cfg(qwt_verif)]
+pub mod verif_hooks {
+    use std::sync::atomic::{AtomicU64, Ordering};
+    use std::sync::Mutex;
+
+    static TIE_SEED: AtomicU64 = AtomicU64::new(0);
+    static LAST_CRAFT: Mutex<Vec<(usize, u32)>> = Mutex::new(Vec::new());
+
+    /// 0 disables the reordering (the `HashMap` order is kept).
+    pub fn set_tie_seed(seed: u64) {
+        TIE_SEED.store(seed, Ordering::SeqCst);
+    }
+
+    pub fn tie_seed() -> u64 {
+        TIE_SEED.load(Ordering::SeqCst)
+    }
+
+    pub fn mix(seed: u64, symbol: usize) -> u64 {
+        let mut x = (symbol as u64).wrapping_add(seed).wrapping_mul(0x9E3779B97F4A7C15);
+        x ^= x >> 29;
+        x = x.wrapping_mul(0xBF58476D1CE4E5B9);
+        x ^ (x >> 32)
+    }
+
+    pub fn record_craft(f: Vec<(usize, u32)>) {
+        *LAST_CRAFT.lock().unwrap_or_else(|e| e.into_inner()) = f;
+    }
+
+    /// `(symbol, code length in bits)` in the order used by the last `craft_wm_codes`.
+    pub fn last_craft() -> Vec<(usize, u32)> {
+        LAST_CRAFT.lock().unwrap_or_else(|e| e.into_inner()).clone()
+    }
+}
